@@ -9,6 +9,7 @@ import (
 	"fmt"
 	"io"
 	"strconv"
+	"strings"
 	"unicode"
 	"unicode/utf16"
 	"unicode/utf8"
@@ -281,14 +282,19 @@ func (d *Decoder) decodeNumber(majorByte byte) (tok.TokenType, int64, uint64, fl
 	// Try int first; if it fails for range reasons, halt; otherwise,
 	// then try float; if that fails return the float error.
 	s := string(d.r.StopTrack())
-	if i, err := strconv.ParseInt(s, 10, 64); err == nil {
-		return tok.TInt, i, 0, 0, nil
-	} else if err.(*strconv.NumError).Err == strconv.ErrRange {
-		// Beyond int64: it may still be a uint64 (which the encoder does emit).
-		if u, uerr := strconv.ParseUint(s, 10, 64); uerr == nil {
-			return tok.TUint, 0, u, 0, nil
+	// Only text with integer syntax is an integer.  (ParseInt reports a range
+	// error as soon as the leading digits overflow, before it ever looks at a
+	// following '.' or exponent: "123456789012345678901.5" is a fine float.)
+	if !strings.ContainsAny(s, ".eE") {
+		if i, err := strconv.ParseInt(s, 10, 64); err == nil {
+			return tok.TInt, i, 0, 0, nil
+		} else if err.(*strconv.NumError).Err == strconv.ErrRange {
+			// Beyond int64: it may still be a uint64 (which the encoder does emit).
+			if u, uerr := strconv.ParseUint(s, 10, 64); uerr == nil {
+				return tok.TUint, 0, u, 0, nil
+			}
+			return tok.TInt, i, 0, 0, err
 		}
-		return tok.TInt, i, 0, 0, err
 	}
 	f, err := strconv.ParseFloat(s, 64)
 	return tok.TFloat64, 0, 0, f, err
